@@ -30,9 +30,9 @@ func parserInputs(o *propOpts, each func(e *entry, s string, origin string)) {
 	for _, p := range probes {
 		each(entryByName(p.entry), p.text, "probe")
 	}
-	nmut := 2500
+	nmut := 15000
 	if o.tier == "thorough" {
-		nmut = 50000
+		nmut = 120000
 	}
 	r := &rng{s: o.seed}
 	files := corpusFiles()
@@ -45,9 +45,9 @@ func parserInputs(o *propOpts, each func(e *entry, s string, origin string)) {
 		each(entryByName(entryForDir(cf.Dir)), s, "mutation")
 	}
 	// structural recombinations of the golden inputs (see graft.go), up to two steps deep
-	ngraft := 4000
+	ngraft := 12000
 	if o.tier == "thorough" {
-		ngraft = 80000
+		ngraft = 120000
 	}
 	for i := 0; i < ngraft; i++ {
 		cf := files[r.intn(len(files))]
@@ -65,9 +65,12 @@ func parserInputs(o *propOpts, each func(e *entry, s string, origin string)) {
 			}
 		}
 		each(e, s, "graft")
+		if r.intn(4) == 0 { // the malformed stream of the recombined inputs
+			each(e, mutate(r, s), "graft+mutation")
+		}
 	}
 	// expression soups: operators and atoms glued with blanks (valid and invalid)
-	nexpr := 1500
+	nexpr := 6000
 	if o.tier == "thorough" {
 		nexpr = 30000
 	}
@@ -84,7 +87,8 @@ func parserInputs(o *propOpts, each func(e *entry, s string, origin string)) {
 var exprFrags = []string{"a", "b.c", "1", "-1", "1.5", "'s'", "b'x'", "@p", "NULL", "TRUE", "+", "-", "~", "*", "/", "||", "<<", ">>", "&", "^", "|", "=", "!=", "<>", "<", "<=", ">", ">=",
 	"LIKE", "NOT LIKE", "IN (1, 2)", "NOT IN (1)", "IN UNNEST(a)", "BETWEEN 1 AND 2", "NOT BETWEEN a AND b", "IS NULL", "IS NOT NULL", "IS TRUE", "IS NOT FALSE", "NOT", "AND", "OR",
 	"(", ")", "[1]", "[OFFSET(1)]", ".f", "f(1)", "f(a, b)", "CASE WHEN a THEN b END", "IF(a, b, c)", "CAST(a AS INT64)", "ARRAY[1]", "STRUCT(1)", "(SELECT 1)", "EXISTS(SELECT 1)",
-	"[1, 2]", "NEW T(1)", "{a: 1}", "DATE '2020-01-01'", "INTERVAL 1 DAY", "x.*", ",", "AS"}
+	"[1, 2]", "NEW T(1)", "{a: 1}", "STRUCT<INT64, ARRAY<INT64>>(1, [2])", "NEW T {b: 1}", "NEW T {b: 1, c {d: 2}}", "ARRAY<STRUCT<a INT64>>[(1)]", "STRUCT<a INT64, b STRING>(1, 'x')",
+	"CAST(a AS ARRAY<STRUCT<x INT64>>)", "f(a => 1)", "(SELECT a FROM t WHERE b)", "ARRAY(SELECT 1)", "WITH(a AS 1, a)", "[", "]", "{", "}", "<", ">", "DATE '2020-01-01'", "INTERVAL 1 DAY", "x.*", ",", "AS"}
 
 // probes: constructs quoted in the property texts and in DESIGN §5 (each must hold after the recorded fixes)
 var probes = []struct{ entry, text string }{
